@@ -415,6 +415,7 @@ package variants
 //@ # an error; the intergenic list is codes() of exactly these regions and the reference length given.
 //@ func RegionsFromGenbank
 //@   modifies everything
+//@   requires refLength >= 0
 //@   loop 1:
 //@     invariant freshslice(cds) && len(cds) == count(t, 0, range_i, gb.FEATURES[t].Feature == "CDS")
 //@   before call:CDSRegion2fromGenbank#1: assert [c14.feature] arg(0) == f && f.Feature == "CDS"
